@@ -51,7 +51,7 @@ def describe(ev):
     if ev["act"] == "WordList":
         return "embedded word list"
     s = core.untext(ev["inp"]["hex"])
-    return "%s(%r)" % ("from_entropy_hex" if ev["inp"]["via"] == "wallet" else "mnemonic_from_entropy", s if len(s) < 70 else s[:66] + "..")
+    return "%s(%r)" % ("from_entropy_hex" if ev["inp"].get("via") == "wallet" else "mnemonic_from_entropy", s if len(s) < 70 else s[:66] + "..")
 
 
 def site(ev, clause):
@@ -73,6 +73,8 @@ def run(ctx):
         cfg = cfg.replace("{0, 80, 144, 255}", "{0, 144}")
     ctx.mc("MC_Bip39", cfg, coverage=False, label="scaled instance (5-bit words): every 8- and 16-bit entropy value x checksum patterns")
     events = core.build_events(ctx, gen_inputs(ctx))
+    events += core.suite_events(ctx, ["tests/test_bip39.py", "tests/test_bip85.py"], ("Mnemonic",), len(events),
+                                limit=60 if ctx.quick else 1000)
     for e in events[1:3] + events[-1:]:
         ctx.sample({"call": describe(e), "res": str(e["res"])[:200]})
     rj = ctx.validate(MODULE, events, min_shard=100)
